@@ -4,6 +4,7 @@ The reference model is the documented manifest layout (doc/rpms-1.1.rst and the 
 INDEPENDENT NEVRA / module-UID parser; every add is compared step by step (C12), every restart against
 the durable model (C03), architecture keys against the binary subset of the arch table (C10).
 """
+import collections
 import copy
 import io
 import json
@@ -73,6 +74,15 @@ def parse_module_uid(uid):
 
 def _grey():
     raise KeyError("grey")
+
+
+def _same_up_to_list_order(a, b):
+    """equal once every list is compared as a multiset"""
+    if isinstance(a, dict) and isinstance(b, dict):
+        return sorted(a) == sorted(b) and all(_same_up_to_list_order(a[k], b[k]) for k in a)
+    if isinstance(a, (list, tuple)) and isinstance(b, (list, tuple)):
+        return sorted(cjson(x) for x in a) == sorted(cjson(x) for x in b)
+    return a == b
 
 
 class ManifestMachine(FormatMachine):
@@ -188,6 +198,9 @@ class ManifestMachine(FormatMachine):
             return "accepted-unspec"
         self.count("C12", ["ok", self.FORMAT, self.add_key(op, payload)])
         d = first_diff(arg, got)
+        if d and self.cfg.get("focus") == "C08" and _same_up_to_list_order(arg, got):
+            # "caller-ordered lists are content and keep their order" (C08): the library re-ordered what the caller put in
+            raise Violation("C08", "C08.caller_ordered_lists_keep_their_order", "caller-ordered-list-reordered/%s" % self.FORMAT, {"diff": d})
         if d and self.cfg.get("focus") not in (None, "C12", "C03"):
             # another property's run: the effect of an add is not its business - follow the observation and go on
             # (cutting the run here would hide what THIS run is looking for further down the history)
@@ -546,7 +559,7 @@ class ExtraFilesMachine(ManifestMachine):
             import random
             keys = sorted(ck)
             random.Random(op["ck_order"]).shuffle(keys)
-            ck = dict((k, ck[k]) for k in keys)
+            ck = (collections.OrderedDict if op["ck_order"] % 2 else dict)((k, ck[k]) for k in keys)
         obj.add(op["variant"], op["arch"], op["path"], dec(op["size"]), ck)
 
     def dumps_for_cmp(self, s, op):
